@@ -274,7 +274,10 @@ Http::One::RequestParser::parseRequestFirstLine()
     // Now, the request line has to end at the first LF.
     static const CharacterSet lineChars = CharacterSet::LF.complement("notLF");
     Tokenizer lineTok(buf_);
-    if (!lineTok.prefix(line, lineChars) || !lineTok.skip('\n')) {
+    // A line reaching the size limit is rejected below even when its LF has
+    // already arrived, so that the outcome does not depend on read boundaries.
+    if (!lineTok.prefix(line, lineChars) || !lineTok.skip('\n') ||
+            line.length() >= Config.maxRequestHeaderSize) {
         if (buf_.length() >= Config.maxRequestHeaderSize) {
             /* who should we blame for our failure to parse this line? */
 
